@@ -40,7 +40,11 @@ theorem consts_pinned :
     Gen.Consts.commentExpr = "line[len(match.group(0)):].removesuffix('\\n')" ∧
     Gen.Consts.ignoredTest = "not comment.lstrip().startswith(ignored_comment)" ∧
     Gen.Consts.ignoredCommentExpr = "' '.join(names.cols())" := by
-  sorry
+  exact ⟨rfl, rfl, rfl, rfl, rfl, rfl, rfl, rfl, rfl, rfl, rfl, rfl⟩
+
+theorem dataOf_eq : dataOf = rowOf := rfl
+theorem commentOf_eq : commentOf = cmtOf := rfl
+theorem tailOf_eq : tailOf = tlOf := rfl
 
 /-- **Reading succeeds exactly when no line is invalid, and then returns exactly one row per data line,
 in file order, the comments in order, and the "fields ignored" flag.** -/
@@ -48,31 +52,49 @@ theorem read_ok_iff (nx : Nat) (ls : List Str) (res : ReadResult) :
     readLines nx ls = .ok res ↔
       (∀ l ∈ ls, classify nx l ≠ .invalid) ∧ res.rows = ls.filterMap (dataOf nx) ∧
       res.comments = ls.filterMap (commentOf nx) ∧ res.warned = ls.any (tailOf nx) := by
-  sorry
+  rw [readLines_eq, dataOf_eq, commentOf_eq, tailOf_eq]
+  rcases first_invalid nx ls with h | ⟨pre, bad, post, rfl, hpre, hbad⟩
+  · rw [readLinesWith_valid false nx ls h]
+    cases res
+    simp only [Except.ok.injEq, ReadResult.mk.injEq]
+    constructor
+    · rintro ⟨rfl, rfl, rfl⟩; exact ⟨h, rfl, rfl, rfl⟩
+    · rintro ⟨-, rfl, rfl, rfl⟩; exact ⟨rfl, rfl, rfl⟩
+  · rw [readLinesWith_invalid false nx pre bad post hpre hbad]
+    constructor
+    · intro h; simp at h
+    · rintro ⟨hall, -⟩; exact absurd hbad (hall bad (by simp))
 
 /-- one node per data row -/
 theorem read_row_count (nx : Nat) (ls : List Str) (res : ReadResult) (h : readLines nx ls = .ok res) :
     res.rows.length = (ls.filter (fun l => (dataOf nx l).isSome)).length := by
-  sorry
+  have := ((read_ok_iff nx ls res).1 h).2.1
+  rw [this]
+  clear this h
+  induction ls with
+  | nil => rfl
+  | cons l ls ih =>
+    cases hd : dataOf nx l <;> simp [hd, ih]
 
 /-- **Never a shortened or partially filled table**: an invalid line at ANY position makes the whole
 read an error, which names the first such line (1-based). -/
 theorem read_never_partial (nx : Nat) (pre : List Str) (bad : Str) (post : List Str)
     (hpre : ∀ l ∈ pre, classify nx l ≠ .invalid) (hbad : classify nx bad = .invalid) :
     readLines nx (pre ++ bad :: post) = .error (.invalidRow (pre.length + 1)) := by
-  sorry
+  rw [readLines_eq, readLinesWith_invalid false nx pre bad post hpre hbad]; rfl
 
 /-- what would happen if `__exit__` returned `True` (the D03 defect): the rows before the bad line come
 back as a "successful" shortened table — the model exhibits the defect, so the flag matters. -/
 theorem swallow_truncates (nx : Nat) (pre : List Str) (bad : Str) (post : List Str)
     (hpre : ∀ l ∈ pre, classify nx l ≠ .invalid) (hbad : classify nx bad = .invalid) :
     ∃ res, readLinesWith true nx (pre ++ bad :: post) = .ok res ∧ res.rows = pre.filterMap (dataOf nx) := by
-  sorry
+  refine ⟨⟨pre.filterMap (rowOf nx), pre.filterMap (cmtOf nx), pre.any (tlOf nx)⟩, ?_, rfl⟩
+  rw [readLinesWith_invalid true nx pre bad post hpre hbad]; rfl
 
 /-- blank lines and `#` lines contribute no row -/
 theorem blank_and_comment_skipped (nx : Nat) (l : Str) (h : classify nx l = .blank ∨ ∃ c, classify nx l = .comment c) :
     dataOf nx l = none := by
-  sorry
+  rcases h with h | ⟨c, h⟩ <;> simp [dataOf, h]
 
 /-! ## every field is numerically what the row says, for every whitespace layout -/
 
@@ -94,11 +116,13 @@ theorem data_line_fields (lead w1 w2 w3 w4 w5 w6 trail t1 t2 t3 t4 t5 t6 t7 : St
     (e7 : pidTok t7 = some (p, [])) :
     classify 0 (lead ++ t1 ++ w1 ++ t2 ++ w2 ++ t3 ++ w3 ++ t4 ++ w4 ++ t5 ++ w5 ++ t6 ++ w6 ++ t7 ++ trail)
       = .data ⟨a, b, x, y, z, r, p, []⟩ false := by
-  sorry
+  simp only [List.append_assoc]
+  exact classify_of_parseData (parseData_seven lead w1 w2 w3 w4 w5 w6 trail t1 t2 t3 t4 t5 t6 t7 a b x y z r p
+    hl ht h1.1 h1.2 h2.1 h2.2 h3.1 h3.2 h4.1 h4.2 h5.1 h5.2 h6.1 h6.2 e1 e2 e3 e4 e5 e6 e7)
 
 /-- positional notation: the value of a digit string with more digits appended -/
 theorem natOf_append (a b : Str) : natOf (a ++ b) = natOf a * 10 ^ b.length + natOf b := by
-  sorry
+  exact SwcText.natOf_append a b
 
 /-- the value the recogniser assigns to a float token is its decimal meaning: for the spelling
 `[sign] ip [. fp] [e [sign] ex]` (digit strings `ip ≠ ""`, `fp`, `ex ≠ ""`) it is
@@ -114,12 +138,47 @@ theorem float_token_value (sg : Str) (neg : Bool) (ip fp ex : Str) (esg : Str) (
     floatPrefix (sg ++ ip) = some (⟨neg, natOf ip, 0⟩, []) ∧
     floatPrefix (sg ++ ip ++ 'E' :: esg ++ ex)
       = some (⟨neg, natOf ip, (if eneg then -(natOf ex : Int) else (natOf ex : Int))⟩, []) := by
-  sorry
+  have hE : NoDig ('E' :: (esg ++ ex)) := noDig_cons _ (by decide)
+  have he : NoDig ('e' :: (esg ++ ex)) := noDig_cons _ (by decide)
+  have xe := expPart_exp hesg 'e' (Or.inl rfl) ex hex.1 hex.2
+  have xE := expPart_exp hesg 'E' (Or.inr rfl) ex hex.1 hex.2
+  refine ⟨?_, ?_, ?_, ?_⟩
+  · have := floatPrefix_shape hsg ip ('.' :: (fp ++ 'e' :: (esg ++ ex))) hip.1 hip.2 (noDig_dot _)
+    simp only [List.append_assoc, List.cons_append]
+    rw [this, fracPart_dot, takeDigs_digs_append fp _ hfp he]
+    simp only [xe]
+  · have := floatPrefix_shape hsg ip ('.' :: fp) hip.1 hip.2 (noDig_dot _)
+    simp only [List.append_assoc]
+    rw [this, fracPart_dot, takeDigs_allDig fp hfp]
+    simp [expPart]
+  · have := floatPrefix_shape hsg ip [] hip.1 hip.2 noDig_nil
+    simp only [List.append_nil] at this
+    rw [this]
+    simp [fracPart_nil, expPart]
+  · have := floatPrefix_shape hsg ip ('E' :: (esg ++ ex)) hip.1 hip.2 hE
+    simp only [List.append_assoc, List.cons_append]
+    rw [this, fracPart_other 'E' _ (by decide)]
+    simp only [xE]
+    simp
 
 /-- a token that is not a number is not accepted: a data line needs all seven fields -/
 theorem too_few_fields_invalid (t1 t2 : Str) (a b : Nat) (e1 : intTok t1 = some (a, [])) (e2 : intTok t2 = some (b, [])) :
     classify 0 (t1 ++ ' ' :: t2 ++ ['\n']) = .invalid := by
-  sorry
+  have s1 := intTok_some_start e1
+  have s2 := intTok_some_start e2
+  have hsp : ∀ c ∈ [' '], isWs c = true := by simp; decide
+  have hl : t1 ++ ' ' :: t2 ++ ['\n'] = t1 ++ ' ' :: (t2 ++ ['\n']) := by simp
+  rw [hl]
+  have d0 : dropWs (t1 ++ ' ' :: (t2 ++ ['\n'])) = t1 ++ ' ' :: (t2 ++ ['\n']) := (s1.append _).dropWs
+  have a1 : intTok (t1 ++ ' ' :: (t2 ++ ['\n'])) = some (a, ' ' :: (t2 ++ ['\n'])) :=
+    intTok_step e1 (wsHead_cons (by decide)).noDig
+  have b1 : needWs (' ' :: (t2 ++ ['\n'])) = some (t2 ++ ['\n']) :=
+    needWs_step (w := [' ']) (by simp) hsp (s2.append ['\n'])
+  have a2 := intTok_step e2 (wsHead_cons (c := '\n') (cs := []) (by decide)).noDig
+  have b2 : needWs ['\n'] = some [] := by simp [needWs, dropWs, isWs]
+  apply classify_invalid_of
+  · simp [parseData, d0, a1, b1, a2, b2, floatPrefix_nil]
+  · rw [d0]; exact s1.append _
 
 -- non-vacuity / concrete behaviour of the model (these run in the kernel)
 example : classify 0 " 1 2 3. .5 1e3 -2.5E-1 -1\n".toList
